@@ -14,4 +14,4 @@ INVARIANT TagSlices
 INVARIANT GroupSpans
 INVARIANT RoundTrip
 INVARIANT PrintStable
-INVARIANT NoStuck
+CHECK_DEADLOCK TRUE
